@@ -112,8 +112,11 @@ def process_spec(job):
   """Everything the check does with one specification (runs in a worker process)."""
   si, s, origin, seed, qtr, P = job
   from pyglove.core import geno
+  import time
   rng = pyrandom.Random(seed)
   ctx = Rec()
+  if time.time() > P['deadline']:      # wall-clock guard of the tier: the spec is reported as skipped, never silently
+    ctx.hist('skipped_for_time_budget', origin); return ctx
   add = ctx.add
   str_ = G.spec_tr(s)
   try:
@@ -217,12 +220,15 @@ def process_spec(job):
       ctx.count(('cmp', str(a), str(b)), nontrivial=nontriv, kind='cmp')
   return ctx
 
-def run_jobs(jobs, nproc):
+def run_jobs_with(fn, jobs, nproc):
   import multiprocessing as mp
   if nproc <= 1 or len(jobs) < 8:
-    return [process_spec(j) for j in jobs]
+    return [fn(j) for j in jobs]
   with mp.get_context('fork').Pool(nproc) as pool:
-    return pool.map(process_spec, jobs, chunksize=max(1, len(jobs) // (nproc * 8)))
+    return pool.map(fn, jobs, chunksize=max(1, len(jobs) // (nproc * 8)))
+
+def run_jobs(jobs, nproc):
+  return run_jobs_with(process_spec, jobs, nproc)
 
 def run(ctx):
   ctx.build()
@@ -232,8 +238,10 @@ def run(ctx):
   q = detect_quirks(ctx)
   qtr = [int(q['float_bind_kids'])]
   ctx.extra['quirk_flags_from_witness_replay'] = q
-  P = dict(limit=ctx.scale(60, 400), nwork=ctx.scale(8, 14), ncwork=ctx.scale(3, 4), ncorr=ctx.scale(12, 30), nseeds=ctx.scale(3, 20))
-  ctx.extra['per_spec_parameters'] = P
+  import time
+  P = dict(limit=ctx.scale(60, 400), nwork=ctx.scale(8, 14), ncwork=ctx.scale(3, 4), ncorr=ctx.scale(12, 30), nseeds=ctx.scale(3, 20),
+           deadline=time.time() + ctx.scale(70, 1100))
+  ctx.extra['per_spec_parameters'] = {k: v for k, v in P.items() if k != 'deadline'}
   # ---- specifications ---------------------------------------------------------------------------
   small = G.small_specs()
   small2 = [s for s in small if G.count_points(s) <= 2]
@@ -244,10 +252,10 @@ def run(ctx):
     chosen_small = small2 + [small3[i] for i in sorted(rng.sample(range(len(small3)), 2500))]
     ctx.extra['small_scope']['swept'] = 'every spec with <= 2 decision points (exhaustive) + a seeded sample of 2500 of the 3-point specs'
   else:
-    chosen_small = [small2[i] for i in sorted(rng.sample(range(len(small2)), 70))] + [small3[i] for i in sorted(rng.sample(range(len(small3)), 50))]
-    ctx.extra['small_scope']['swept'] = 'seeded sample: 70 specs with <= 2 points, 50 with 3 points'
+    chosen_small = [small2[i] for i in sorted(rng.sample(range(len(small2)), 40))] + [small3[i] for i in sorted(rng.sample(range(len(small3)), 25))]
+    ctx.extra['small_scope']['swept'] = 'seeded sample: 40 specs with <= 2 points, 25 with 3 points'
   rand_specs = []
-  for i in range(ctx.scale(40, 1200)):
+  for i in range(ctx.scale(25, 1200)):
     fin = rng.random() < 0.6
     rand_specs.append(G.random_spec(rng, budget=rng.choice([3, 4, 5, 6, 8]), d=rng.choice([2, 3, 3, 4]), allow_inf=not fin,
                                     max_cands=rng.choice([3, 4, 5]), max_k=3))
@@ -255,7 +263,7 @@ def run(ctx):
   if os.environ.get('C11_MAXSPECS'):
     specs = specs[::max(1, len(specs) // int(os.environ['C11_MAXSPECS']))]
   jobs = [(si, s, origin, rng.getrandbits(48), qtr, P) for si, (s, origin) in enumerate(specs)]
-  nproc = int(os.environ.get('VERIF_JOBS', '12'))
+  nproc = int(os.environ.get('VERIF_JOBS', str(min(12, os.cpu_count() or 2))))
   recs = run_jobs(jobs, nproc)
   ctx.log('implementation ran on %d specifications (%d worker processes)' % (len(specs), nproc))
   cases, impl, descr = [], [], []
